@@ -31,11 +31,11 @@ pub fn run(ctx: &Ctx, rec: &mut Rec) {
     rec.declare_class("k:empty-limbs");
     rec.declare_class("k:leading-zero-limbs");
     let mut zrng = rng_for(ctx.seed, P, 999, 0);
-    let zoo = shadow_zoo(ctx, &mut zrng, ctx.scale(4, 40));
+    let zoo = shadow_zoo(ctx, &mut zrng, ctx.scale(8, 40));
     // element classes: keep a representative subset for the full cross product
     let mut els: Vec<SE> = Vec::new();
     let mut seen = std::collections::BTreeMap::<&str, usize>::new();
-    let per_class = ctx.scale(2, 12);
+    let per_class = ctx.scale(3, 12);
     for e in &zoo {
         let n = seen.entry(e.class).or_insert(0);
         if *n < per_class {
@@ -52,7 +52,7 @@ pub fn run(ctx: &Ctx, rec: &mut Rec) {
         for e in &els {
             // structured scalars + a few random ones per element
             let mut scalars: Vec<(B, &'static str)> = szoo.clone();
-            for _ in 0..ctx.scale(3, 20) {
+            for _ in 0..ctx.scale(8, 24) {
                 scalars.push((rand_below(&mut rng, &c.r), "random"));
             }
             for (k, kclass) in &scalars {
@@ -138,7 +138,7 @@ pub fn run(ctx: &Ctx, rec: &mut Rec) {
     // (3) module laws through the library only
     par(rec, |w, n, rec| {
         let mut rng = rng_for(ctx.seed, P, w, 3);
-        let reps = ctx.scale(600, 30000);
+        let reps = ctx.scale(3000, 40000);
         for rep in 0..reps {
             if rep % n != w {
                 continue;
